@@ -3,7 +3,7 @@
 //! `dispatch` returns `None` for a configuration the harness was not compiled with.
 
 use crate::driver::run_history;
-use crate::elem::{Fu64, Nl, Pair, Quad, Var};
+use crate::elem::{Bu16, Fu64, Nl, Pair, Quad, Var};
 use alloy_primitives::{U128, U256};
 use milhouse::update_map::MaxMap;
 use std::collections::BTreeMap;
@@ -102,6 +102,7 @@ kind_fn!(run_quad, Quad;);
 kind_fn!(run_var, Var;);
 kind_fn!(run_nl, Nl;);
 kind_fn!(run_fu64, Fu64;);
+kind_fn!(run_bu16, Bu16;);
 
 /// Run `ops` under configuration `(kind, n, map)`. Prints the `H` line itself (via `hdr`) once
 /// the configuration is known to be supported; returns `None` (nothing printed) otherwise.
@@ -126,6 +127,7 @@ pub fn dispatch(
         "var" => run_var(n, map, ops, out, hdr),
         "nl" => run_nl(n, map, ops, out, hdr),
         "fu64" => run_fu64(n, map, ops, out, hdr),
+        "bu16" => run_bu16(n, map, ops, out, hdr),
         _ => None,
     }
 }
